@@ -1,8 +1,10 @@
 package main
 
 import (
+	"fmt"
 	"go/token"
 	"go/types"
+	"os"
 	"sort"
 	"strings"
 
@@ -16,16 +18,17 @@ type shimModel struct {
 	w        *World
 	pure     map[*ssa.Function]bool
 	Server   *types.Named
-	fLocked  string         // the field tested before operations: a bool or small-integer state written by Lock/Unlock
-	flagEnum bool           // the lock flag is an integer state, not a bool
-	lockedK  int64          // ... whose value "locked" is the constant Lock stores
-	flagVals map[int64]bool // ... and these are all the values it can hold (zero value and every stored constant)
-	fCerts   string         // map[hashcode]*certificate
-	fCache   string         // map[hashcode]struct{}
-	fAgent   string         // agent.ExtendedAgent
-	fConn    string         // io.ReadWriteCloser
-	fMu      string         // sync.RWMutex
-	fNoUp    string         // the other bool field (no-upstream mode)
+	fLocked  string                  // the field tested before operations: a bool or small-integer state written by Lock/Unlock
+	flagEnum bool                    // the lock flag is an integer state, not a bool
+	lockedK  int64                   // ... whose value "locked" is the constant Lock stores
+	flagVals map[int64]bool          // ... and these are all the values it can hold (zero value and every stored constant)
+	owners   map[string]*types.Named // the struct type declaring each role field (the server, or a helper type it holds)
+	fCerts   string                  // map[hashcode]*certificate
+	fCache   string                  // map[hashcode]struct{}
+	fAgent   string                  // agent.ExtendedAgent
+	fConn    string                  // io.ReadWriteCloser
+	fMu      string                  // sync.RWMutex
+	fNoUp    string                  // the other bool field (no-upstream mode)
 	fConds   string
 	Methods  map[string]*ssa.Function // exported + unexported methods of *Server by name
 	problems []string
@@ -82,8 +85,34 @@ func resolveShim(w *World) *shimModel {
 	}
 	st := m.Server.Underlying().(*types.Struct)
 	var bools []string
+	// the role fields may sit in the server struct or one level down, in a repository struct type the server holds
+	// (embedded or as a field, by value or by pointer): a lock-state, a notifier, an upstream-certificate helper
+	type fieldAt struct {
+		f     *types.Var
+		owner *types.Named
+	}
+	var all []fieldAt
 	for i := 0; i < st.NumFields(); i++ {
 		f := st.Field(i)
+		all = append(all, fieldAt{f, m.Server})
+		ft := f.Type()
+		if p, ok := ft.(*types.Pointer); ok {
+			ft = p.Elem()
+		}
+		if n, ok := ft.(*types.Named); ok && w.InRepoType(n) {
+			if ns, ok := n.Underlying().(*types.Struct); ok {
+				for j := 0; j < ns.NumFields(); j++ {
+					all = append(all, fieldAt{ns.Field(j), n})
+				}
+			}
+		}
+	}
+	m.owners = map[string]*types.Named{}
+	for _, fa := range all {
+		f := fa.f
+		if _, dup := m.owners[f.Name()]; !dup {
+			m.owners[f.Name()] = fa.owner
+		}
 		ts := f.Type().String()
 		switch {
 		case strings.HasSuffix(ts, "sync.RWMutex") || strings.HasSuffix(ts, "sync.Mutex"):
@@ -129,7 +158,7 @@ func resolveShim(w *World) *shimModel {
 	// the lock flag is the bool field written by the Lock method; the other bool is the mode flag
 	if lock := m.Methods["Lock"]; lock != nil {
 		for _, b := range bools {
-			for _, a := range w.FieldAccesses(m.Server, b) {
+			for _, a := range w.FieldAccesses(m.Owner(b), b) {
 				if (a.Fn == lock || w.inTree(lock, a.Fn)) && a.Kind == "write" {
 					m.fLocked = b
 				}
@@ -138,14 +167,14 @@ func resolveShim(w *World) *shimModel {
 	}
 	if lock := m.Methods["Lock"]; lock != nil && m.fLocked == "" {
 		// ... or a state field of a basic integer type that Lock writes a constant into; every writer stores a constant
-		for i := 0; i < st.NumFields(); i++ {
-			f := st.Field(i)
+		for _, fat := range all {
+			f := fat.f
 			if bt, ok := f.Type().Underlying().(*types.Basic); !ok || bt.Info()&types.IsInteger == 0 {
 				continue
 			}
 			vals := map[int64]bool{0: true}
 			lockK, nLock, allConst := int64(0), 0, true
-			for _, a := range w.FieldAccesses(m.Server, f.Name()) {
+			for _, a := range w.FieldAccesses(m.Owner(f.Name()), f.Name()) {
 				switch a.Kind {
 				case "write":
 					k, isK := intConst(a.Instr.(*ssa.Store).Val)
@@ -215,7 +244,7 @@ func (m *shimModel) isLoadOfField(v ssa.Value, field string) bool {
 	if !ok {
 		return false
 	}
-	return isFieldOf(fa.X.Type(), m.Server, field, fa.Field)
+	return isFieldOf(fa.X.Type(), m.Owner(field), field, fa.Field)
 }
 
 // shimEffect classifies instruction ins of a server method as an effect on the agent's identities /
@@ -226,7 +255,7 @@ func (m *shimModel) effect(fn *ssa.Function, ins ssa.Instruction) (string, bool)
 	case *ssa.Store:
 		if fa, ok := x.Addr.(*ssa.FieldAddr); ok {
 			for _, f := range []string{m.fCerts, m.fCache, m.fLocked, m.fAgent, m.fConn} {
-				if isFieldOf(fa.X.Type(), m.Server, f, fa.Field) {
+				if isFieldOf(fa.X.Type(), m.Owner(f), f, fa.Field) {
 					return "write " + f, true
 				}
 			}
@@ -335,6 +364,14 @@ func (m *shimModel) effectFree(fn *ssa.Function, depth int) bool {
 	}
 	m.pure[fn] = ok
 	return ok
+}
+
+// Owner: the struct type declaring role field f.
+func (m *shimModel) Owner(f string) *types.Named {
+	if n := m.owners[f]; n != nil {
+		return n
+	}
+	return m.Server
 }
 
 // lockedLit: literal l decides the lock flag; locked is its value.
@@ -731,7 +768,7 @@ func runC08(c *Ctx) {
 			c.Check(len(agentCall.Call.Args) == 1 && w.ExprIn(fr.entry, agentCall.Call.Args[0]) == "p1", "R2.flip", spec.name+"|passphrase pass-through", w.Pos(agentCall.Pos()),
 				"passphrase parameter forwarded unchanged", "the passphrase handed to the underlying agent is not the method's parameter: "+w.Expr(agentCall.Call.Args[0]))
 			nStores := 0
-			for _, a := range w.FieldAccesses(m.Server, m.fLocked) {
+			for _, a := range w.FieldAccesses(m.Owner(m.fLocked), m.fLocked) {
 				if a.Fn != fn || a.Kind != "write" || !live(a.Instr.Block()) {
 					continue
 				}
@@ -773,7 +810,7 @@ func runC08(c *Ctx) {
 			}
 			// ... or the store sits in a helper that only the flag-writing methods call: read per call site, the stored
 			// value and the tested result being the arguments of that site
-			for _, a := range w.FieldAccesses(m.Server, m.fLocked) {
+			for _, a := range w.FieldAccesses(m.Owner(m.fLocked), m.fLocked) {
 				if a.Fn == fn || a.Kind != "write" || !m.flagHelper(a.Fn, flagWriters) {
 					continue
 				}
@@ -857,7 +894,7 @@ func runC08(c *Ctx) {
 
 	// R3: writers census
 	writers := map[string]bool{}
-	for _, a := range w.FieldAccesses(m.Server, m.fLocked) {
+	for _, a := range w.FieldAccesses(m.Owner(m.fLocked), m.fLocked) {
 		if a.Kind == "write" || a.Kind == "addr" || a.Kind == "addrcall" {
 			okW := flagWriters[a.Fn] && a.Kind == "write"
 			if !flagWriters[a.Fn] && a.Kind == "write" && m.flagHelper(a.Fn, flagWriters) {
@@ -885,7 +922,7 @@ func runC08(c *Ctx) {
 		fn := fr.body
 		for _, f := range []string{m.fCerts, m.fCache} {
 			clean := true
-			for _, a := range w.FieldAccesses(m.Server, f) {
+			for _, a := range w.FieldAccesses(m.Owner(f), f) {
 				if (a.Fn == fn || a.Fn == fr.entry) && (a.Kind == "write" || a.Kind == "mapwrite" || a.Kind == "mapdelete") {
 					clean = false
 					c.Bad("R3.writers", name+"|writes "+f, w.Pos(a.Instr.Pos()), name+" modifies the certificate tables: the pre-lock view would not be what unlock reveals")
@@ -902,10 +939,16 @@ func runC08(c *Ctx) {
 // flag-writing method (Lock / Unlock).
 func (m *shimModel) flagHelper(h *ssa.Function, flagWriters map[*ssa.Function]bool) bool {
 	w := m.w
-	if h == nil || h.Parent() != nil || token.IsExported(h.Name()) || w.dynCallable(h) || recvNamed(h) != m.Server {
+	if h == nil || h.Parent() != nil || token.IsExported(h.Name()) || w.dynCallable(h) || (recvNamed(h) != m.Server && recvNamed(h) != m.Owner(m.fLocked)) {
 		return false
 	}
 	sites := w.callSites(h)
+	if os.Getenv("YV_DEBUG") != "" {
+		fmt.Fprintln(os.Stderr, "flagHelper", h, len(sites), w.dynCallable(h), recvNamed(h), m.Owner(m.fLocked))
+		for _, s := range sites {
+			fmt.Fprintln(os.Stderr, "  site in", s.Parent(), flagWriters[s.Parent()])
+		}
+	}
 	for _, s := range sites {
 		if _, isCall := s.(*ssa.Call); !isCall || !flagWriters[s.Parent()] {
 			return false
